@@ -7,9 +7,11 @@ package main
 import (
 	"fmt"
 	"strings"
+	"sync"
 
 	"github.com/gotd/td/telegram/updates"
 	"github.com/gotd/td/verifharness/hx"
+	"github.com/gotd/td/verifharness/updsim"
 )
 
 // Op kinds: 0 Handle{ID,St,Cnt}; 1 SetState(ID = z); 2 ClearGaps.
@@ -298,10 +300,22 @@ func main() {
 	}
 
 	var rp struct {
-		Init int
-		Ops  []Op
+		Init    int
+		Ops     []Op
+		Manager *updsim.History
 	}
-	if c.LoadReplay(&rp) {
+	if c.LoadReplay(&rp) && rp.Manager != nil {
+		res := updsim.RunHistory(*rp.Manager)
+		fmt.Printf("replay: %s\nreplay: trace: %s\n", *rp.Manager, updsim.TraceString(res.Trace))
+		for _, f := range updsim.CheckAtMostOnce(res) {
+			fmt.Printf("replay: oracle %s: %s\n", f.Sig, f.Desc)
+			c.Violate(f.Sig, f.Desc, -1, 0, map[string]interface{}{"manager": rp.Manager})
+		}
+		c.Obs.Evaluations++
+		c.Finish()
+		return
+	}
+	if c.Replay != "" {
 		h := Hist{rp.Init, rp.Ops}
 		b := updates.NewVerifBox(h.Init)
 		var obs []stepObs
@@ -463,6 +477,65 @@ func main() {
 		}
 		runOne(kind, Hist{init, ops})
 	}
-	c.Obs.Rule = "histories of <=30 ops (Handle/SetState/ClearGaps) over a synthetic server log tiling [base,base+R), R<=40, with multi-count, overlapping and zero-count variants, loss, duplication, reordering, late fills and interleaved differences; 1/12 malformed (zero/negative positions, negative counts, backward SetState: correspondence and no-panic only); thorough adds all 6^6 histories over a 3-update log; non-trivial = distinct history in which an opened gap is later filled by arrival (one apply call with >=2 updates) or a difference arrives while updates are pending"
+	managerLevel(c)
+	c.Obs.Rule = "histories of <=30 ops (Handle/SetState/ClearGaps) over a synthetic server log tiling [base,base+R), R<=40, with multi-count, overlapping and zero-count variants, loss, duplication, reordering, late fills and interleaved differences; 1/12 malformed (zero/negative positions, negative counts, backward SetState: correspondence and no-panic only); thorough adds all 6^6 histories over a 3-update log; non-trivial = distinct history in which an opened gap is later filled by arrival (one apply call with >=2 updates) or a difference arrives while updates are pending; plus manager-level histories (real updates.Manager, fake server, see C02) checked for at-most-once delivery at the handler"
 	c.Finish()
+}
+
+// managerLevel checks the at-most-once clause where the statement places it: at the
+// UpdateHandler of a real updates.Manager (all boxes, real goroutines, differences incl.
+// slices, real gap timers). No Coq correspondence here (C02 replays these runs on the
+// UpdMgr model); violations are reported with shard -1.
+func managerLevel(c *hx.Ctx) {
+	E := func(id int, k updsim.Kind, seq, pos, cnt int) updsim.Entry {
+		return updsim.Entry{ID: id, Kind: k, Seq: seq, Pos: pos, Cnt: cnt}
+	}
+	var hs []updsim.History
+	{ // regression: buffered update flushed while a difference slice's other_updates pass through the pts box
+		cfg := updsim.Config{Base: []int{100, 0}, SliceLim: 2}
+		h := updsim.History{Cfg: cfg, Log: []updsim.Entry{E(1, updsim.KOther, 0, 101, 1), E(2, updsim.KOther, 0, 102, 1), E(3, updsim.KOther, 0, 103, 1)}}
+		h.Ops = []updsim.Op{{K: updsim.OpStartup, Vis: []int{100, 0}}, {K: updsim.OpPush, Vis: []int{103, 0}, Items: []int{3}}}
+		h.Ops = append(h.Ops, updsim.FinalOps(cfg, []int{103, 0})...)
+		hs = append(hs, h)
+	}
+	{ // same without a slice: the difference's final state lies below a buffered update flushed during it
+		cfg := updsim.Config{Base: []int{100, 0}}
+		h := updsim.History{Cfg: cfg, Log: []updsim.Entry{E(1, updsim.KOther, 0, 101, 1), E(2, updsim.KOther, 0, 102, 1), E(3, updsim.KOther, 0, 103, 1)}}
+		h.Ops = []updsim.Op{{K: updsim.OpStartup, Vis: []int{100, 0}}, {K: updsim.OpPush, Vis: []int{103, 0}, Items: []int{3}},
+			{K: updsim.OpTooLong, Vis: []int{102, 0}}, {K: updsim.OpPush, Vis: []int{103, 0}, Items: []int{3}}}
+		h.Ops = append(h.Ops, updsim.FinalOps(cfg, []int{103, 0})...)
+		hs = append(hs, h)
+	}
+	n := c.N(80, 1500)
+	for i := 0; i < n; i++ {
+		hs = append(hs, updsim.Gen(c.Rng, updsim.GenOpts{MaxEntries: 12, MaxChans: 2}))
+	}
+	results := make([]updsim.Result, len(hs))
+	var wg sync.WaitGroup
+	sem := make(chan struct{}, 48)
+	for i := range hs {
+		wg.Add(1)
+		sem <- struct{}{}
+		go func(i int) {
+			defer wg.Done()
+			defer func() { <-sem }()
+			results[i] = updsim.RunHistory(hs[i])
+		}(i)
+	}
+	wg.Wait()
+	for _, res := range results {
+		c.Obs.Evaluations++
+		c.Count("manager-level")
+		if res.Stuck != "" {
+			c.Violate("manager-stuck", res.Stuck+" | "+res.H.String(), -1, 0, map[string]interface{}{"manager": res.H})
+			continue
+		}
+		seen := map[string]bool{}
+		for _, f := range updsim.CheckAtMostOnce(res) {
+			if !seen[f.Sig] {
+				seen[f.Sig] = true
+				c.Violate(f.Sig, f.Desc+" | trace: "+updsim.TraceString(res.Trace)+" | "+res.H.String(), -1, 0, map[string]interface{}{"manager": res.H})
+			}
+		}
+	}
 }
